@@ -391,7 +391,7 @@ impl Property for C04 {
     fn budget(&self, tier: Tier) -> Budget {
         match tier {
             Tier::Quick => Budget { release: 400_000, dbg: 200_000, workers: 8 },
-            Tier::Thorough => Budget { release: 4_000_000, dbg: 2_000_000, workers: 16 },
+            Tier::Thorough => Budget { release: 12_000_000, dbg: 6_000_000, workers: 16 },
         }
     }
     fn assumptions(&self) -> Vec<String> {
